@@ -908,15 +908,16 @@ func (e *Engine) globalRef(g *ssa.Global) string {
 
 func (e *Engine) loadRaw(st *State, p *PtrSV, t types.Type) SV {
 	if p.Kind == pkHeap && p.Either {
-		c, pe, ph := e.splitEither(p)
-		ve := e.flatten(t, e.loadRaw(st, pe, t))
-		vh := e.flatten(t, e.loadRaw(st, ph, t))
+		alts, ph := e.alternatives(p)
 		lv := e.leaves(t)
-		out := make([]string, len(lv))
-		for i := range lv {
-			out[i] = e.vc.define("ld", lv[i].Sort, fmt.Sprintf("(ite %s %s %s)", c, ve[i], vh[i]))
+		cur := e.flatten(t, e.loadRaw(st, ph, t))
+		for k := len(alts) - 1; k >= 0; k-- {
+			va := e.flatten(t, e.loadRaw(st, alts[k].ptr, t))
+			for i := range lv {
+				cur[i] = e.vc.define("ld", lv[i].Sort, fmt.Sprintf("(ite %s %s %s)", alts[k].cond, va[i], cur[i]))
+			}
 		}
-		return e.unflat(t, out)
+		return e.unflat(t, cur)
 	}
 	tt, prefix := e.typeAtPath(p.Root, p.Path)
 	_ = tt
@@ -1019,29 +1020,42 @@ func (e *Engine) store(fr *Frame, st *State, pv SV, t types.Type, v SV, what str
 
 func (e *Engine) storeRaw(st *State, p *PtrSV, t types.Type, v SV) {
 	if p.Kind == pkHeap && p.Either {
-		c, pe, ph := e.splitEither(p)
-		se, sh := st.clone(), st.clone()
-		e.storeRaw(se, pe, t, v)
+		alts, ph := e.alternatives(p)
+		base := st.clone()
+		sh := base.clone()
 		e.storeRaw(sh, ph, t, v)
-		var names []string
-		seen := map[string]bool{}
-		for n := range se.heap {
-			if se.heap[n] != st.heap[n] && !seen[n] {
-				seen[n] = true
-				names = append(names, n)
+		result := sh
+		for k := len(alts) - 1; k >= 0; k-- {
+			sa := base.clone()
+			e.storeRaw(sa, alts[k].ptr, t, v)
+			merged := result.clone()
+			seen := map[string]bool{}
+			var names []string
+			for n := range sa.heap {
+				if !seen[n] {
+					seen[n] = true
+					names = append(names, n)
+				}
 			}
-		}
-		for n := range sh.heap {
-			if sh.heap[n] != st.heap[n] && !seen[n] {
-				seen[n] = true
-				names = append(names, n)
+			for n := range result.heap {
+				if !seen[n] {
+					seen[n] = true
+					names = append(names, n)
+				}
 			}
+			sortStrings(names)
+			for _, n := range names {
+				srt := e.vc.heapSort[n]
+				a, b := e.heapGet(sa, n, srt), e.heapGet(result, n, srt)
+				if a != b {
+					merged.heap[n] = e.vc.define("H_"+n, srt, fmt.Sprintf("(ite %s %s %s)", alts[k].cond, a, b))
+					e.vc.written[n] = true
+				}
+			}
+			result = merged
 		}
-		sortStrings(names)
-		for _, n := range names {
-			srt := e.vc.heapSort[n]
-			a, b := e.heapGet(se, n, srt), e.heapGet(sh, n, srt)
-			e.heapSet(st, n, srt, fmt.Sprintf("(ite %s %s %s)", c, a, b))
+		for n, v := range result.heap {
+			st.heap[n] = v
 		}
 		return
 	}
